@@ -188,3 +188,96 @@ func c14FiniteAttributes(c *core.Check) {
 		r.Unknown("svg | strconv.ParseFloat", "-", "no call found")
 	}
 }
+
+// c14MarkerScale (R16): a marker whose markerWidth or markerHeight is zero is not rendered (SVG 2 §13.7.1), and must
+// not be: its scale is zero and the clip of the marker divides by it.  In drawMarkers every floating point division
+// whose divisor is a scale returned by resolveTransforms is dominated by comparisons of both resolved marker sizes
+// with zero.
+func c14MarkerScale(c *core.Check) {
+	p := c.Prog
+	r := c.Rule("R16", "zero-sized markers are skipped: in (*SVGImage).drawMarkers every division by a scale obtained from resolveTransforms is dominated by a comparison of the resolved markerWidth and one of the resolved markerHeight with zero", 2)
+	fn := p.Method("svg", "SVGImage", "drawMarkers")
+	if fn == nil {
+		r.Anchor("svg.(*SVGImage).drawMarkers")
+		return
+	}
+	fromResolve := func(v ssa.Value) bool {
+		ex, ok := v.(*ssa.Extract)
+		if !ok {
+			return false
+		}
+		call, ok := ex.Tuple.(*ssa.Call)
+		return ok && call.Call.StaticCallee() != nil && call.Call.StaticCallee().Name() == "resolveTransforms" && ex.Index <= 1
+	}
+	isScale := func(v ssa.Value) bool {
+		return arithDerives(v, func(v ssa.Value) bool {
+			if fromResolve(v) {
+				return true
+			}
+			// the scale lives in a local captured by the drawing closure: a load of a variable the result is stored to
+			if ld, ok := v.(*ssa.UnOp); ok && ld.Op == token.MUL {
+				if al, ok := ld.X.(*ssa.Alloc); ok {
+					for _, ref := range *al.Referrers() {
+						if st, ok := ref.(*ssa.Store); ok && st.Addr == ssa.Value(al) && fromResolve(st.Val) {
+							return true
+						}
+					}
+				}
+			}
+			return false
+		})
+	}
+	// the resolved marker sizes: results of the call whose arguments are the markerWidth / markerHeight fields
+	var sizes []ssa.Value
+	core.Instrs(fn, func(in ssa.Instruction) {
+		call, ok := in.(*ssa.Call)
+		if !ok || len(call.Call.Args) < 2 {
+			return
+		}
+		isSizeField := false
+		for _, a := range call.Call.Args {
+			if ld, ok := a.(*ssa.UnOp); ok {
+				if fa, ok := ld.X.(*ssa.FieldAddr); ok && (core.FieldName(fa) == "markerWidth" || core.FieldName(fa) == "markerHeight") {
+					isSizeField = true
+				}
+			}
+		}
+		if !isSizeField {
+			return
+		}
+		for _, ref := range *call.Referrers() {
+			if ex, ok := ref.(*ssa.Extract); ok {
+				sizes = append(sizes, ex)
+			}
+		}
+	})
+	n := 0
+	core.Instrs(fn, func(in ssa.Instruction) {
+		div, ok := in.(*ssa.BinOp)
+		if !ok || div.Op != token.QUO || !isScale(div.Y) {
+			return
+		}
+		n++
+		key := fmt.Sprintf("svg.(*SVGImage).drawMarkers | division by a marker scale #%d", n)
+		tested := 0
+		for _, sz := range sizes {
+			for _, a := range core.CondAtoms(fn) {
+				g, ok := a.(*ssa.BinOp)
+				if !ok || g.X != sz {
+					continue
+				}
+				if z, ok := core.ConstFloat(g.Y); !ok || z != 0 {
+					continue
+				}
+				if g.Block() != div.Block() && g.Block().Dominates(div.Block()) {
+					tested++
+					break
+				}
+			}
+		}
+		r.Cond(len(sizes) >= 2 && tested >= 2, key, p.Pos(div.Pos()), "both marker sizes were compared with zero before", fmt.Sprintf("%d of the %d resolved marker sizes are compared with zero before this division: markerWidth=\"0\" gives a zero scale and the clip rectangle of the marker is NaN/Inf", tested, len(sizes)))
+	})
+	if n == 0 {
+		r.Unknown("svg.(*SVGImage).drawMarkers | divisions by a marker scale", p.Pos(fn.Pos()), "none found")
+	}
+}
